@@ -45,6 +45,11 @@ type Scenario struct {
 	// Grow: after the stored head has been taken, the server's log grows by this many more records
 	// before the clients start (large logs: many tiles per read).
 	Grow int
+	// Warm: lookups performed one after the other by a throw-away client before the scenario's clients
+	// start (they fill the shared cache and advance the shared configuration). ResetConfig then puts the
+	// configuration back ("empty", or "stored" = the head taken after Preload) while the cache is kept.
+	Warm        []Lookup
+	ResetConfig string
 }
 
 // CurrentThread returns the id (1-based, in spawn order) of the top-level goroutine the caller descends
@@ -90,6 +95,8 @@ func All() []Scenario {
 		{Name: "three-heads-one-client-h8", Height: 8, Preload: pre(10, 11, 12), Stored: true, Clients: 1, Threads: [][]Lookup{{L(0, 0, false)}, {L(0, 1, false)}, {L(0, 3, false)}}},
 		{Name: "height-8-single-tile", Height: 8, Preload: pre(10, 11, 12, 13, 14), Stored: true, Clients: 1, Threads: [][]Lookup{{L(0, 0, false)}, {L(0, 1, true)}}},
 		{Name: "one-thread-two-lookups-vs-one", Height: 2, Preload: pre(10), Clients: 1, Threads: [][]Lookup{{L(0, 0, false), L(0, 1, false)}, {L(0, 1, true)}}},
+		{Name: "cache-ahead-of-empty-config", Height: 2, Preload: pre(10), Clients: 2, Warm: []Lookup{L(0, 0, false), L(0, 1, false)}, ResetConfig: "empty", Threads: [][]Lookup{{L(0, 0, false)}, {L(1, 1, false)}}},
+		{Name: "cache-ahead-of-older-config", Height: 2, Preload: pre(10), Stored: true, Clients: 1, Warm: []Lookup{L(0, 0, false), L(0, 1, false)}, ResetConfig: "stored", Threads: [][]Lookup{{L(0, 1, true)}, {L(0, 0, false)}}},
 	}
 }
 
@@ -258,6 +265,16 @@ func (v view) ReadCache(file string) ([]byte, error) {
 	if !ok {
 		return nil, errors.New("cache miss")
 	}
+	if strings.Contains(file, "/lookup/") {
+		// a cached lookup carries a signed head too: it counts as a head this client has seen
+		if _, _, treeMsg, err := tlog.ParseRecord(d); err == nil {
+			if n, err := note.Open(treeMsg, note.VerifierList(world.TheKeys().V)); err == nil {
+				if t, err := tlog.ParseTree([]byte(n.Text)); err == nil {
+					v.e.HeadsSeen = append(v.e.HeadsSeen, t.N)
+				}
+			}
+		}
+	}
 	return append([]byte(nil), d...), nil
 }
 
@@ -319,12 +336,14 @@ func Exec(sc Scenario, spawn func(func()), wait func(), point func(string)) (*En
 			panic("fork preload failed: " + err.Error())
 		}
 	}
-	if sc.Stored {
+	var storedHead []byte
+	if sc.Stored || sc.ResetConfig == "stored" {
 		pv.id = 0
 		head, err := pv.ReadRemote("/latest")
 		if err != nil {
 			panic(err)
 		}
+		storedHead = head
 		if sc.Fork {
 			// the stored head is the shared prefix: serve it from a pristine server of the same size
 		}
@@ -336,7 +355,22 @@ func Exec(sc Scenario, spawn func(func()), wait func(), point func(string)) (*En
 			panic("growing the log failed: " + err.Error())
 		}
 	}
-	e.Ops, e.HeadsSeen, e.Served = nil, nil, nil
+	if len(sc.Warm) > 0 {
+		wc := sumdb.NewClient(view{e, 0})
+		wc.SetTileHeight(sc.Height)
+		for _, l := range sc.Warm {
+			if _, err := wc.Lookup(l.Path, l.Vers); err != nil {
+				panic("warm-up lookup failed: " + err.Error())
+			}
+		}
+		switch sc.ResetConfig {
+		case "empty":
+			delete(e.Config, k.Name+"/latest")
+		case "stored":
+			e.Config[k.Name+"/latest"] = storedHead
+		}
+	}
+	e.Ops, e.HeadsSeen, e.Served, e.Writes = nil, nil, nil, nil
 	e.Point = point
 	clients := make([]*sumdb.Client, sc.Clients)
 	for i := range clients {
